@@ -266,9 +266,12 @@ C02_SilentAfterComp == fresh = "Write" =>
                                    /\ wire[i].tag = (IF wire[j].p = "PUBLISH" THEN wire[j].tag ELSE RelTag(j))
 
 \* ---- C03 ---------------------------------------------------------------
+\* the statement is about the default (queued) mode: with DirectlyPublishQoS0 the QoS 0 messages bypass the queue
+Direct0(j) == Cfg.directQoS0 /\ wire[j].qos = 0
+Direct0Req(x) == Cfg.directQoS0 /\ IsPubReq(x) /\ reqs[x].q = 0
 C03_OrderPerConn == fresh = "Write" =>
   LET j == NW IN (IsPub(j) /\ Sent(j)) =>
-     \A i \in 1..(j - 1) : (IsPub(i) /\ Sent(i) /\ wire[i].g = wire[j].g) => wire[i].tag <= wire[j].tag
+     \A i \in 1..(j - 1) : (IsPub(i) /\ Sent(i) /\ wire[i].g = wire[j].g /\ ~Direct0(i) /\ ~Direct0(j)) => wire[i].tag <= wire[j].tag
 \* request classes: a publish is its own class; subscribe / unsubscribe requests with the same filter
 \* list are indistinguishable on the wire and form one class
 ClassOfReq(i) == IF IsPubReq(i) THEN <<"pub", i, << >>, << >> >>
@@ -287,8 +290,8 @@ FirstWireStrict(c) == LET S == {j \in W : Sent(j) /\ ClassOfPkt(j) = c /\ ~Maybe
 \* evaluated at quiescence (all Submit events are in): classes are first transmitted in the order of
 \* their first submission; a QoS 0 publish that never reached the wire is the allowed exception
 C03_FirstTxOrder ==
-  (fresh = "Idle" /\ ~Cfg.directQoS0) =>
-    \A a, b \in {x \in R : Accepted(x)} :
+  (fresh = "Idle") =>
+    \A a, b \in {x \in R : Accepted(x) /\ ~Direct0Req(x)} :
       LET ca == ClassOfReq(a)  cb == ClassOfReq(b) IN
       (FirstReq(ca) = a /\ FirstReq(cb) = b /\ a < b /\ FirstWireStrict(cb) # 0) =>
          \/ (FirstWire(ca) # 0 /\ FirstWire(ca) < FirstWireStrict(cb))
@@ -296,7 +299,7 @@ C03_FirstTxOrder ==
 OnlyCuts == \A j \in W : wire[j].o \in {"ok", "cutBefore", "cutAfter", "closed"}
 FirstDeliv(t) == Min({i \in 1..Len(delivered) : delivered[i] = t})
 C03_FirstDeliveryOrder ==
-  (fresh = "Idle" /\ OnlyCuts /\ SessionKept /\ ~Cfg.directQoS0) =>
+  (fresh = "Idle" /\ OnlyCuts /\ SessionKept) =>
     \A a, b \in {x \in R : Accepted(x) /\ IsPubReq(x) /\ reqs[x].q > 0} :
       (a < b /\ b \in Range(delivered)) => (a \in Range(delivered) /\ FirstDeliv(a) < FirstDeliv(b))
 
@@ -347,6 +350,19 @@ C12_AsSubmitted == fresh = "Idle" =>
     (n \in 1..Len(reqs) /\ reqs[n].k = "pub") =>
        /\ wire[j].qos = reqs[n].q /\ wire[j].retain = reqs[n].retain /\ wire[j].topic = "t"
 
+\* ---- C15 (the clause about caller-supplied identifiers, on the retrying client) -------------------
+\* an identifier the application put on a message is the identifier of every PUBLISH / PUBREL of that message, also
+\* when the first transmission is deferred (sent from the client's queued copy) or repeated
+C15_PresetIdKept == fresh = "Idle" =>
+  \A j \in 1..Len(wire) : IsPub(j) =>
+    LET n == wire[j].tag IN
+    (n \in 1..Len(reqs) /\ reqs[n].k = "pub" /\ reqs[n].pid # 0 /\ wire[j].qos > 0) => wire[j].id = reqs[n].pid
+
+\* ---- C19 (the clause about the response timeout, on the retrying client) -------------------------
+\* whatever OnError reports because a response timeout expired -- on a first transmission, a deferred one or a
+\* retransmission -- is identifiable as RequestTimeoutError (the scenarios use no other deadline)
+C19_TimeoutTyped == \A o \in 1..Len(onerrs) : onerrs[o].cls = "deadline" => onerrs[o].timeout
+
 \* ---- C17 ---------------------------------------------------------------
 \* Handle calls are made by one goroutine: k-th call = handles[2k-1] (call) and handles[2k] (ret).
 NH == Len(handles) \div 2
@@ -389,7 +405,7 @@ Obs == [
   C03_OrderPerConn |-> C03_OrderPerConn, C03_FirstTxOrder |-> C03_FirstTxOrder, C03_FirstDeliveryOrder |-> C03_FirstDeliveryOrder,
   C08_StableSubs |-> C08_StableSubs, C08_NoResubUnlessDue |-> C08_NoResubUnlessDue,
   C12_DupFlag |-> C12_DupFlag, C12_SameOnRetx |-> C12_SameOnRetx, C12_NoPubAfterRel |-> C12_NoPubAfterRel,
-  C12_NoQoS0Retx |-> C12_NoQoS0Retx, C12_RelHasPublish |-> C12_RelHasPublish, C12_AsSubmitted |-> C12_AsSubmitted,
+  C12_NoQoS0Retx |-> C12_NoQoS0Retx, C12_RelHasPublish |-> C12_RelHasPublish, C12_AsSubmitted |-> C12_AsSubmitted, C15_PresetIdKept |-> C15_PresetIdKept, C19_TimeoutTyped |-> C19_TimeoutTyped,
   C17_RightHandler |-> C17_RightHandler, C17_AtMostOnce |-> C17_AtMostOnce, C17_NoneDropped |-> C17_NoneDropped,
   C18_TimeoutClosesAndReports |-> C18_TimeoutClosesAndReports, C18_NoStall |-> C18_NoStall ]
 
